@@ -123,12 +123,16 @@ def divisions : List Str :=
 
 def topologies : List Str := ["circular", "linear"].map String.toList
 
-/-- `dd-MMM-yyyy` -/
+def months : List Str :=
+  ["JAN", "FEB", "MAR", "APR", "MAY", "JUN", "JUL", "AUG", "SEP", "OCT", "NOV", "DEC"].map String.toList
+
+/-- `dd-MMM-yyyy` with a real month.  (A "date" such as `01-PRI-2020` is not one — and poly's parser
+would read its middle as a division code: it searches the codes in the whole rest of the LOCUS line.) -/
 def isDate (s : Str) : Bool :=
   match s with
   | [d1, d2, m1, a, b, c, m2, y1, y2, y3, y4] =>
     isDigit d1 && isDigit d2 && m1 == '-' && isUpper a && isUpper b && isUpper c && m2 == '-'
-      && isDigit y1 && isDigit y2 && isDigit y3 && isDigit y4
+      && isDigit y1 && isDigit y2 && isDigit y3 && isDigit y4 && months.contains [a, b, c]
   | _ => false
 
 /-- take the last token off a reversed token list if it satisfies `p` -/
@@ -557,6 +561,9 @@ def wfSeqJ (x : Sequence) : Bool :=
   let m := x.metadata
   wfLayoutJ x && !(m.locus.circular && m.locus.linear)
     && m.other.all (wfOtherJ 11) && x.features.all wfFeatureRT
+    -- from base 10^8 on the ORIGIN counter fills its nine columns, the sequence line begins with a digit and
+    -- genbank.Parse takes it for a keyword line: a limit of the reader far beyond the property's 10^5
+    && x.sequence.length < 100000000
 
 /-! #### what the known findings predict -/
 
